@@ -181,11 +181,17 @@ def cases(ctx):
     quick = ctx.tier == "quick"
     i = 0
     structured = [0, 0xFFFFFF, 0xABCDEF] + [1 << b for b in range(24)] + [0xFFFFFF ^ (1 << b) for b in range(24)]
+    # addresses whose OVERLAY (the modified address actually XOR-ed onto the parity) is a boundary pattern
+    structured += [bits.uplink_overlay_inverse(o) for o in [0xFFFFFF, 0xFFFFFE, 0x7FFFFF, 0x800000, 0xAAAAAA, 0x555555] + [1 << b for b in range(24)]
+                   + [0xFFFFFF ^ (1 << b) for b in range(24)]]
     for n in (56, 112):
         for a in structured:
             for rep in range(2):
                 if ctx.mine(i):
                     yield "addr", {"n": n, "addr": a, "data": "%X" % (rng.fill(n - 24) if rep else 0), "lower": rep == 1}
+                    if n == 56:      # the same address on an all-call (UF11) and on roll-call interrogations
+                        for ufv in (11, 4, 5, 0):
+                            yield "addr", {"n": n, "addr": a, "data": "%X" % ((ufv << 27) | rng.fill(27)), "lower": False}
                 i += 1
     # data fields that are small multiples of the generator polynomial (the division register runs empty half-way), with
     # addresses whose AP overlay starts with zero bits
